@@ -213,8 +213,10 @@ where
         //
         let counter = HashMap::<u64, u64>::new();
         //
-        let mut rng = ThreadRng::default();
-        let seed = rng.next_u64();
+        let rng = ThreadRng::default();
+        // fixed default seed : two sketchers built with the same parameters must hash the same way
+        // (signatures are stored and compared across instances and processes). Use change_rng_seed() to vary it.
+        let seed = 0xcf7355744a6e8145_u64;
         //
         ProbOrdMinHash2 {
             m,
